@@ -19,6 +19,11 @@ The oracle stops a history (silently) as soon as the model and the library disag
 *legal* (the property quantifies over legal steps; which calls must raise is C08/C09), or when the model marks
 the step's outcome as not pinned down by the documentation ("ambiguous").
 
+Signatures: text-differs-after-<op>, reparse-differs-after-<op>, text-unwritable-after-<op>, foreign-exception
+(op in {add-<RT>, rm, rmline-<RT>, disconnect, rename, settag, deltag}).  On the pinned tree:
+text-differs-after-rm/rmline-S|L|E|O/disconnect = DESIGN 7 #1 (half of the dependants survive),
+text-differs-after-rm/rmline-G = #2 (gap stays listed in the set), foreign-exception = #10 (one-segment path).
+
 NOT CHECKED:
   * whether a given call should have raised (C08/C09); a failed call is only required to have left the text
     as it was for the history to go on.
@@ -39,15 +44,23 @@ from harness.props import _hist as H
 
 ID = "C05"
 STATS = collections.Counter()   # why histories stop / how much is compared (diagnostics only)
-RULE = ("random histories (4-25 steps quick, up to 60 thorough) of legal calls (4% meant to fail) on GFA1 and GFA2 "
+RULE = ("exhaustive: every history of length <= 4 (quick) / <= 5 (thorough) over a 7-step alphabet per version (2 segments, 2 links, a path, rm, rename / segment, edge, gap, O, U, rm segment, rm edge); random: histories (4-25 steps quick, up to 60 thorough) of legal calls (4% meant to fail) on GFA1 and GFA2 "
         "graphs over 4-6 segment names: all record types, lines arriving before the lines they mention, fan-out > 1 "
         "in every collection, nested and multi-line groups, rm by name and by instance, disconnect, rename, set/delete "
         "tag; 85% of histories end by defining everything still undefined. Non-trivial: at least one "
-        "rm/disconnect/rename on a graph of at least four lines. Distinct by case hash.")
+        "rm/disconnect/rename in a history with at least two additions. Distinct by case hash.")
 
 PROF = H.profile(p_fail=0.04, gap_in_o=False, close=0.85,
                  ops={"add": 46, "rm": 14, "rmline": 7, "disconnect": 7, "rename": 10, "settag": 8, "deltag": 4})
 CASE_TIMEOUT = 60
+
+
+def n_exhaustive(tier):
+    return H.ex_count(4 if tier == "quick" else 5)
+
+
+def exhaustive_case(i, tier):
+    return H.ex_case(i, 4 if tier == "quick" else 5)
 
 
 def budget(tier):
@@ -60,7 +73,7 @@ def gen_case(rng, tier, i):
 
 def nontrivial(case):
     ops = [s[0] for s in case["hist"]]
-    return sum(1 for o in ops if o == "add") >= 4 and any(o in ("rm", "rmline", "disconnect", "rename") for o in ops)
+    return sum(1 for o in ops if o == "add") >= 2 and any(o in ("rm", "rmline", "disconnect", "rename") for o in ops)
 
 
 def tags(case):
